@@ -281,6 +281,7 @@ func (m *C14Mon) OnBlock(blk *hist.Block) []Finding {
 			if rec == nil {
 				rec = cp
 			}
+			out = append(out, Finding{"COUNT", "observed:" + from + "->" + to, ""})
 			switch to {
 			case "voting":
 				funds := amountAt(blk.Cur, "propFunds_t_"+id)
